@@ -4,11 +4,17 @@
 //! (or `serve_with_incoming` in mode `n`) over in-memory `tokio::io::duplex` connections, with real
 //! tonic clients (`Endpoint::connect_with_connector`), on a current-thread runtime with paused time.
 //!
+//! Mode `t` / `u` run the same scripts over LOOPBACK TCP through the TCP entry points
+//! `Router::serve_with_shutdown(addr, signal)` / `Router::serve(addr)` (`TcpIncoming::bind` inside
+//! tonic), with clients connecting real `tokio::net::TcpStream`s; see "TCP variant" below.
+//!
 //! Case grammar (space separated):
-//!   sc[:<generator stream label, not interpreted>] <g|n> b<duplex buffer> p<payload bytes>
+//!   sc[:<generator stream label, not interpreted>] <g|n|t|u> b<duplex buffer> p<payload bytes>
 //!      a<0|1 max_connection_age configured> <step>*
-//!      (g = serve_with_incoming_shutdown, n = serve_with_incoming; requests and response messages
-//!       are p bytes; the duplex buffer size sets the transport fragmentation)
+//!      (g = serve_with_incoming_shutdown, n = serve_with_incoming, both over in-memory duplex pipes;
+//!       t = serve_with_shutdown(addr, signal), u = serve(addr), both over loopback TCP;
+//!       requests and response messages are p bytes; the duplex buffer size sets the transport
+//!       fragmentation (ignored over TCP))
 //!   step (optionally suffixed `~<k>`: only k scheduler yields follow instead of a full settle):
 //!     C            offer a connection (index = order of offering) and connect a client over it
 //!     U<c>:<s>     start a unary call on connection c; handler will answer status s (0 = OK + message)
@@ -36,6 +42,22 @@
 //!
 //! Time = number of quiescent points passed (a quiescent point = the paused-clock runtime went idle:
 //! `sleep(1ms)` only returns once no task is runnable).  Steps joined by `~k` share one instant.
+//!
+//! TCP variant.  The server binds 127.0.0.1:<free port> itself; nothing on the server side can be
+//! wrapped, so a connection is observed from its client end: `accepted` = the client received bytes
+//! from the server (the server's SETTINGS; a connection left in the listen backlog never gets any),
+//! `closed` = the client read EOF / an error, or dropped its end.  The clock is still tokio's paused
+//! clock (time steps work), but "the runtime went idle" is not by itself a quiescent point when the
+//! kernel sits between the two ends.  So after every step the script driver waits for explicit
+//! synchronisation points, all of them POSITIVE events that the step must cause if the server
+//! behaves: the handler of a call issued on a live connection reported it started; the client
+//! received the items a released handler phase produces; after the signal each live connection's
+//! client read the final GOAWAY (the client end parses HTTP/2 frame headers for this), a connection
+//! with no unfinished call read EOF, and with no connection left the serve future resolved.  A
+//! wait that is not satisfied within a bound (only possible when the server misbehaves) is given
+//! up and the observation is reported as it is.  Only quiescent steps, no `E`/`I` (a TcpIncoming
+//! cannot be ended or made to fail from outside).  The open-connection count at the instant of
+//! resolution is not observable from the client ends and reported as `*`.
 //!
 //! Observed (times; `-` = never):
 //!   R<resolvedAt>:<open server IOs at that instant (`*` in mode n)>:<ok|err>
@@ -84,8 +106,15 @@ struct Step {
     yields: Option<usize>,
 }
 
+#[derive(Clone, Copy, PartialEq, Debug)]
+enum Transport {
+    Duplex,
+    Tcp,
+}
+
 struct Script {
     graceful: bool,
+    transport: Transport,
     buf: usize,
     payload: usize,
     age: bool,
@@ -97,9 +126,11 @@ fn parse(case: &str) -> Option<Script> {
     if t.len() < 5 || !t[0].starts_with("sc") {
         return None;
     }
-    let graceful = match t[1] {
-        "g" => true,
-        "n" => false,
+    let (graceful, transport) = match t[1] {
+        "g" => (true, Transport::Duplex),
+        "n" => (false, Transport::Duplex),
+        "t" => (true, Transport::Tcp),
+        "u" => (false, Transport::Tcp),
         _ => return None,
     };
     let buf: usize = t[2].strip_prefix('b')?.parse().ok()?;
@@ -205,9 +236,12 @@ fn parse(case: &str) -> Option<Script> {
                 return None;
             }
         }
+        if transport == Transport::Tcp && (yields.is_some() || matches!(op, Op::EndIncoming | Op::AcceptErr(_))) {
+            return None;
+        }
         steps.push(Step { op, yields });
     }
-    Some(Script { graceful, buf, payload, age, steps })
+    Some(Script { graceful, transport, buf, payload, age, steps })
 }
 
 // ---------------------------------------------------------------- shared observation state
@@ -216,6 +250,10 @@ fn parse(case: &str) -> Option<Script> {
 struct ConnRec {
     accepted: bool,
     closed_at: Option<usize>,
+    /// TCP variant, seen by the client end: the server acknowledged the client's SETTINGS (its
+    /// HTTP/2 handshake is complete); the server's final GOAWAY (last-stream-id < 2^31-1) arrived
+    hs_ack: bool,
+    final_goaway: bool,
 }
 
 #[derive(Clone, Copy, PartialEq, Debug)]
@@ -321,6 +359,267 @@ impl futures_core::Stream for Incoming {
     }
 }
 
+// ---------------------------------------------------------------- TCP variant: client-side IO wrapper
+
+/// The client end of a loopback TCP connection.  It watches what the server sends (only HTTP/2
+/// frame headers are looked at) and when the connection ends.
+struct CliIo {
+    inner: tokio::net::TcpStream,
+    id: usize,
+    sh: Sh,
+    pending: Vec<u8>,
+}
+
+impl CliIo {
+    fn ended(&self) {
+        let mut g = self.sh.lock().unwrap();
+        let st = g.step;
+        if g.conns[self.id].closed_at.is_none() {
+            g.conns[self.id].closed_at = Some(st);
+        }
+    }
+    fn received(&mut self, bytes: &[u8]) {
+        self.pending.extend_from_slice(bytes);
+        let mut g = self.sh.lock().unwrap();
+        g.conns[self.id].accepted = true;
+        loop {
+            if self.pending.len() < 9 {
+                break;
+            }
+            let len = ((self.pending[0] as usize) << 16) | ((self.pending[1] as usize) << 8) | self.pending[2] as usize;
+            if self.pending.len() < 9 + len {
+                break;
+            }
+            let (ty, flags) = (self.pending[3], self.pending[4]);
+            if ty == 4 && flags & 1 == 1 {
+                g.conns[self.id].hs_ack = true;
+            }
+            if ty == 7 && len >= 8 {
+                let last = u32::from_be_bytes([self.pending[9], self.pending[10], self.pending[11], self.pending[12]]) & 0x7fff_ffff;
+                if last != 0x7fff_ffff {
+                    g.conns[self.id].final_goaway = true;
+                }
+            }
+            self.pending.drain(..9 + len);
+        }
+    }
+}
+
+impl Drop for CliIo {
+    fn drop(&mut self) {
+        self.ended();
+    }
+}
+
+impl AsyncRead for CliIo {
+    fn poll_read(mut self: Pin<&mut Self>, cx: &mut Context<'_>, buf: &mut ReadBuf<'_>) -> Poll<std::io::Result<()>> {
+        let before = buf.filled().len();
+        match Pin::new(&mut self.inner).poll_read(cx, buf) {
+            Poll::Ready(Ok(())) => {
+                if buf.filled().len() == before {
+                    if buf.remaining() > 0 {
+                        self.ended();
+                    }
+                } else {
+                    let new = buf.filled()[before..].to_vec();
+                    self.received(&new);
+                }
+                Poll::Ready(Ok(()))
+            }
+            Poll::Ready(Err(e)) => {
+                self.ended();
+                Poll::Ready(Err(e))
+            }
+            Poll::Pending => Poll::Pending,
+        }
+    }
+}
+
+impl AsyncWrite for CliIo {
+    fn poll_write(mut self: Pin<&mut Self>, cx: &mut Context<'_>, buf: &[u8]) -> Poll<std::io::Result<usize>> {
+        Pin::new(&mut self.inner).poll_write(cx, buf)
+    }
+    fn poll_flush(mut self: Pin<&mut Self>, cx: &mut Context<'_>) -> Poll<std::io::Result<()>> {
+        Pin::new(&mut self.inner).poll_flush(cx)
+    }
+    fn poll_shutdown(mut self: Pin<&mut Self>, cx: &mut Context<'_>) -> Poll<std::io::Result<()>> {
+        Pin::new(&mut self.inner).poll_shutdown(cx)
+    }
+}
+
+// ---------------------------------------------------------------- TCP variant: what to wait for
+
+/// What each script step must cause if the server behaves (TCP variant only).  This is NOT used to
+/// produce the observation - only to know which events to wait for before the next step; a wait
+/// that is not satisfied in time is abandoned and the observation reported as it stands.
+#[derive(Default)]
+struct Expect {
+    graceful_mode: bool,
+    age: bool,
+    sig: bool,
+    now: u64,
+    conns: Vec<ExpConn>,
+    calls: Vec<ExpCall>,
+    gave_up: bool,
+}
+
+struct ExpConn {
+    /// offered while the accept loop was running: the server takes it
+    accept: bool,
+    acc_at: u64,
+    aged: bool,
+    dropped: bool,
+}
+
+struct ExpCall {
+    conn: usize,
+    /// issued on a live connection that had not been told to shut down: the handler starts
+    start: bool,
+    kind: Kind,
+    n: usize,
+    phases: usize,
+    permits: usize,
+    req_left: usize,
+    cancelled: bool,
+}
+
+impl Expect {
+    fn conn_graceful(&self, c: usize) -> bool {
+        (self.graceful_mode && self.sig) || self.conns[c].aged
+    }
+    fn live(&self, k: usize) -> bool {
+        let c = &self.calls[k];
+        c.start && !c.cancelled && !self.conns[c.conn].dropped
+    }
+    /// handler phases of call k that must have run by now
+    fn produced(&self, k: usize) -> usize {
+        let c = &self.calls[k];
+        let p = c.permits.min(c.phases);
+        if p == c.phases && c.req_left > 0 {
+            c.phases - 1
+        } else {
+            p
+        }
+    }
+    fn conn_closes(&self, c: usize) -> bool {
+        self.conns[c].accept
+            && !self.conns[c].dropped
+            && self.conn_graceful(c)
+            && (0..self.calls.len()).all(|k| self.calls[k].conn != c || !self.live(k) || self.produced(k) == self.calls[k].phases)
+    }
+    fn resolves(&self) -> bool {
+        self.graceful_mode && self.sig && (0..self.conns.len()).all(|c| !self.conns[c].accept || self.conns[c].dropped || self.conn_closes(c))
+    }
+    fn wait_passes(&mut self, secs: u64) {
+        self.now += secs;
+        if self.age {
+            for c in self.conns.iter_mut() {
+                if c.accept && self.now - c.acc_at >= AGE.as_secs() {
+                    c.aged = true;
+                }
+            }
+        }
+    }
+    fn satisfied(&self, g: &Shared) -> bool {
+        for (c, e) in self.conns.iter().enumerate() {
+            let r = &g.conns[c];
+            if e.accept && !e.dropped {
+                if r.closed_at.is_none() && !(r.accepted && r.hs_ack) {
+                    return false;
+                }
+                if self.conn_graceful(c) && !(r.final_goaway || r.closed_at.is_some()) {
+                    return false;
+                }
+                if self.conn_closes(c) && r.closed_at.is_none() {
+                    return false;
+                }
+            }
+        }
+        for (k, e) in self.calls.iter().enumerate() {
+            if !self.live(k) {
+                continue;
+            }
+            let r = &g.calls[k];
+            if !r.started {
+                return false;
+            }
+            let p = self.produced(k);
+            let done = r.done_at.is_some();
+            match e.kind {
+                Kind::Unary | Kind::CStream => {
+                    if p >= 1 && !done {
+                        return false;
+                    }
+                }
+                Kind::SStream | Kind::Bidi => {
+                    if p >= 1 && r.hdr.is_none() && !done {
+                        return false;
+                    }
+                    if p >= 1 && !done && !r.bad && r.msgs < (p - 1).min(e.n) {
+                        return false;
+                    }
+                    if p == e.phases && !done {
+                        return false;
+                    }
+                }
+            }
+        }
+        if self.resolves() && g.resolved.is_none() {
+            return false;
+        }
+        true
+    }
+}
+
+/// TCP variant: the quiescent point after a step.  `settle()` lets every task in this runtime run
+/// until none is runnable (which on loopback is normally all there is to wait for); then the
+/// explicit synchronisation points; then once more to idle.
+async fn tcp_sync(sh: &Sh, exp: &mut Expect) {
+    let t0 = std::time::Instant::now();
+    let mut rounds = 0u32;
+    // once a wait has been given up the server is off the script anyway: later waits are short
+    let (max_rounds, max_ms) = if exp.gave_up { (100, 30) } else { (2500, 1000) };
+    loop {
+        settle().await;
+        if exp.satisfied(&sh.lock().unwrap()) {
+            break;
+        }
+        rounds += 1;
+        if rounds > max_rounds && t0.elapsed() > Duration::from_millis(max_ms) {
+            if std::env::var_os("VERIF_C13_TRACE").is_some() {
+                eprintln!("c13: tcp wait abandoned at step {}", sh.lock().unwrap().step);
+            }
+            exp.gave_up = true;
+            break;
+        }
+        // give the kernel real time to move bytes between the two ends
+        std::thread::sleep(Duration::from_micros(200));
+    }
+    settle().await;
+}
+
+/// Await something that completes by real IO under the paused clock.  tokio advances a paused
+/// clock to the next timer whenever no task is runnable - also when the only thing everybody waits
+/// for is the kernel - so without a near timer of our own the clock would leap to whatever timer is
+/// next (a connection's max_connection_age, the watchdog).  A 1 ms tick keeps the leaps at 1 ms.
+async fn with_ticks<F: Future>(fut: F) -> F::Output {
+    let mut fut = std::pin::pin!(fut);
+    loop {
+        tokio::select! {
+            biased;
+            r = &mut fut => return r,
+            _ = tokio::time::sleep(Duration::from_millis(1)) => {
+                std::thread::sleep(Duration::from_micros(50));
+            }
+        }
+    }
+}
+
+fn free_port() -> Option<u16> {
+    let l = std::net::TcpListener::bind("127.0.0.1:0").ok()?;
+    l.local_addr().ok().map(|a| a.port())
+}
+
 // ---------------------------------------------------------------- byte codec
 
 #[derive(Clone, Copy, Default)]
@@ -380,10 +679,20 @@ impl tonic::server::NamedService for GateSvc {
 
 type BoxFut<T> = Pin<Box<dyn Future<Output = T> + Send + 'static>>;
 
-fn call_id(req: &[u8]) -> usize {
+/// the call index a unary / server-streaming request carries; `None` for a request that is not
+/// one of this scenario's (over TCP a stray client of something else could reach the port)
+fn call_id(sh: &Sh, req: &[u8]) -> Option<usize> {
+    if req.len() < 4 {
+        return None;
+    }
     let mut b = [0u8; 4];
     b.copy_from_slice(&req[..4]);
-    u32::from_be_bytes(b) as usize
+    let k = u32::from_be_bytes(b) as usize;
+    if k < sh.lock().unwrap().calls.len() {
+        Some(k)
+    } else {
+        None
+    }
 }
 
 fn status_of(k: usize, code: i32) -> Status {
@@ -397,7 +706,10 @@ impl tonic::server::UnaryService<Vec<u8>> for UnarySvc {
     fn call(&mut self, request: Request<Vec<u8>>) -> Self::Future {
         let sh = self.0.clone();
         Box::pin(async move {
-            let k = call_id(request.get_ref());
+            let k = match call_id(&sh, request.get_ref()) {
+                Some(k) => k,
+                None => return Err(Status::internal("nok")),
+            };
             let (gate, status, payload) = {
                 let mut g = sh.lock().unwrap();
                 g.calls[k].started = true;
@@ -503,7 +815,10 @@ impl tonic::server::ServerStreamingService<Vec<u8>> for StreamSvc {
     fn call(&mut self, request: Request<Vec<u8>>) -> Self::Future {
         let sh = self.0.clone();
         Box::pin(async move {
-            let k = call_id(request.get_ref());
+            let k = match call_id(&sh, request.get_ref()) {
+                Some(k) => k,
+                None => return Err(Status::internal("nok")),
+            };
             let (gate, status, payload, n) = {
                 let mut g = sh.lock().unwrap();
                 g.calls[k].started = true;
@@ -773,75 +1088,195 @@ async fn after_step(y: Option<usize>) {
     }
 }
 
-async fn run(sc: Script) -> String {
-    let sh: Sh = Arc::new(Mutex::new(Shared { payload: sc.payload, ..Default::default() }));
-    let (inc_tx, inc_rx) = mpsc::unbounded_channel();
-    let mut inc_tx = Some(inc_tx);
-    let (sig_tx, sig_rx) = oneshot::channel::<()>();
-    let mut sig_tx = Some(sig_tx);
-    let (keep_tx, keep_rx) = oneshot::channel::<()>(); // keeps an unfired signal pending for ever
-
+fn new_router(sc: &Script, sh: &Sh) -> tonic::transport::server::Router {
     let mut builder = Server::builder();
     if sc.age {
         builder = builder.max_connection_age(AGE);
     }
-    let router = builder.add_service(GateSvc { sh: sh.clone() });
-    let incoming = Incoming(inc_rx);
-    let shs = sh.clone();
+    builder.add_service(GateSvc { sh: sh.clone() })
+}
+
+/// the user's shutdown signal: fires when `sig_rx` gets its message; if the sender just goes
+/// away the signal stays pending for ever
+async fn signal_future(sig_rx: oneshot::Receiver<()>, keep_rx: oneshot::Receiver<()>) {
+    if sig_rx.await.is_err() {
+        let _ = keep_rx.await;
+        std::future::pending::<()>().await;
+    }
+}
+
+fn record_resolved(sh: &Sh, ok: bool) {
+    let mut g = sh.lock().unwrap();
+    let (st, open) = (g.step, g.open);
+    g.resolved = Some((st, open, ok));
+}
+
+async fn run(sc: Script) -> String {
+    let sh: Sh = Arc::new(Mutex::new(Shared { payload: sc.payload, ..Default::default() }));
+    let tcp = sc.transport == Transport::Tcp;
     let graceful = sc.graceful;
-    let sc_graceful = sc.graceful;
-    let serve_task = tokio::spawn(async move {
-        let r = if graceful {
-            router
-                .serve_with_incoming_shutdown(incoming, async move {
-                    if sig_rx.await.is_err() {
-                        let _ = keep_rx.await;
-                        std::future::pending::<()>().await;
+    let mut inc_tx = None;
+    let mut sig_tx;
+    let _keep_tx; // keeps an unfired signal pending for ever
+    let mut tcp_addr: Option<std::net::SocketAddr> = None;
+    let serve_task;
+    if !tcp {
+        let (itx, inc_rx) = mpsc::unbounded_channel();
+        inc_tx = Some(itx);
+        let (stx, sig_rx) = oneshot::channel::<()>();
+        let (ktx, keep_rx) = oneshot::channel::<()>();
+        sig_tx = Some(stx);
+        _keep_tx = ktx;
+        let router = new_router(&sc, &sh);
+        let incoming = Incoming(inc_rx);
+        let shs = sh.clone();
+        serve_task = tokio::spawn(async move {
+            let r = if graceful {
+                router.serve_with_incoming_shutdown(incoming, signal_future(sig_rx, keep_rx)).await
+            } else {
+                drop(sig_rx);
+                drop(keep_rx);
+                router.serve_with_incoming(incoming).await
+            };
+            record_resolved(&shs, r.is_ok());
+        });
+    } else {
+        // The TCP entry points bind the address themselves and do not tell which port they got:
+        // pick a free one, hand it over, and start again with another if somebody else took it in
+        // between (the serve future then fails at once with the bind error).
+        let mut attempt = 0;
+        loop {
+            let port = match free_port() {
+                Some(p) => p,
+                None => {
+                    // no local port free just now (many sockets in TIME_WAIT): wait a little
+                    attempt += 1;
+                    if attempt > 200 {
+                        return "bad-case".into();
                     }
-                })
-                .await
-        } else {
-            drop(sig_rx);
-            drop(keep_rx);
-            router.serve_with_incoming(incoming).await
-        };
-        let mut g = shs.lock().unwrap();
-        let (st, open) = (g.step, g.open);
-        g.resolved = Some((st, open, r.is_ok()));
-    });
+                    std::thread::sleep(Duration::from_millis(20));
+                    continue;
+                }
+            };
+            let addr = std::net::SocketAddr::from(([127, 0, 0, 1], port));
+            let (stx, sig_rx) = oneshot::channel::<()>();
+            let (ktx, keep_rx) = oneshot::channel::<()>();
+            let router = new_router(&sc, &sh);
+            let shs = sh.clone();
+            let task = tokio::spawn(async move {
+                let r = if graceful {
+                    router.serve_with_shutdown(addr, signal_future(sig_rx, keep_rx)).await
+                } else {
+                    drop(sig_rx);
+                    drop(keep_rx);
+                    router.serve(addr).await
+                };
+                record_resolved(&shs, r.is_ok());
+            });
+            // the bind happens in the serve future's first poll
+            for _ in 0..4 {
+                tokio::task::yield_now().await;
+            }
+            if !task.is_finished() {
+                sig_tx = Some(stx);
+                _keep_tx = ktx;
+                tcp_addr = Some(addr);
+                serve_task = task;
+                break;
+            }
+            sh.lock().unwrap().resolved = None;
+            attempt += 1;
+            if attempt > 200 {
+                if std::env::var_os("VERIF_C13_TRACE").is_some() {
+                    eprintln!("c13: no port could be bound");
+                }
+                return "bad-case".into();
+            }
+        }
+    }
+    let mut exp = Expect { graceful_mode: graceful, age: sc.age, ..Default::default() };
 
     let mut channels: Vec<Option<tonic::transport::Channel>> = Vec::new();
     let mut call_tasks: Vec<(usize, tokio::task::JoinHandle<()>)> = Vec::new(); // (conn, task) by call index
     let mut req_tx: Vec<ReqTx> = Vec::new(); // request side of call k, while it is still open
 
     let mut t = 0usize; // time = number of quiescent points passed
+    let vstart = tokio::time::Instant::now();
     for step in sc.steps.iter() {
         sh.lock().unwrap().step = t;
         match step.op.clone() {
             Op::Conn => {
-                let (cli, srv) = tokio::io::duplex(sc.buf);
                 let id = {
                     let mut g = sh.lock().unwrap();
                     g.conns.push(ConnRec::default());
                     g.conns.len() - 1
                 };
-                if let Some(tx) = &inc_tx {
-                    let _ = tx.send(Ok(SrvIo { inner: srv, id, sh: sh.clone() }));
-                } else {
-                    drop(srv);
-                }
-                let mut cli = Some(cli);
-                let r = Endpoint::from_static("http://[::]:50051")
-                    .connect_with_connector(tower::service_fn(move |_: Uri| {
-                        let c = cli.take();
-                        async move {
-                            match c {
-                                Some(c) => Ok(hyper_util::rt::TokioIo::new(c)),
-                                None => Err(std::io::Error::other("connection already used")),
+                let gone = sh.lock().unwrap().resolved.is_some();
+                let r = if tcp && gone {
+                    // The listener went with the serve future.  Whoever owns that port now (another
+                    // scenario running in parallel may have been given it), it is not the server
+                    // under test: the connection counts as refused, without touching the network.
+                    Endpoint::from_static("http://127.0.0.1:50051")
+                        .connect_with_connector(tower::service_fn(|_: Uri| async {
+                            Err::<hyper_util::rt::TokioIo<tokio::net::TcpStream>, _>(std::io::Error::from(std::io::ErrorKind::ConnectionRefused))
+                        }))
+                        .await
+                } else if let Some(addr) = tcp_addr {
+                    let mut used = false;
+                    let shc = sh.clone();
+                    with_ticks(Endpoint::from_static("http://127.0.0.1:50051")
+                        .connect_with_connector(tower::service_fn(move |_: Uri| {
+                            let first = !used;
+                            used = true;
+                            let shc = shc.clone();
+                            async move {
+                                if !first {
+                                    return Err(std::io::Error::other("connection already used"));
+                                }
+                                let mut tries = 0;
+                                let s = loop {
+                                    match tokio::net::TcpStream::connect(addr).await {
+                                        Ok(s) => break s,
+                                        // no local port free just now (sockets in TIME_WAIT)
+                                        Err(e) if e.kind() == std::io::ErrorKind::AddrNotAvailable && tries < 100 => {
+                                            tries += 1;
+                                            std::thread::sleep(Duration::from_millis(20));
+                                        }
+                                        Err(e) => return Err(e),
+                                    }
+                                };
+                                s.set_nodelay(true)?;
+                                Ok(hyper_util::rt::TokioIo::new(CliIo { inner: s, id, sh: shc, pending: Vec::new() }))
                             }
-                        }
-                    }))
-                    .await;
+                        })))
+                        .await
+                } else {
+                    let (cli, srv) = tokio::io::duplex(sc.buf);
+                    if let Some(tx) = &inc_tx {
+                        let _ = tx.send(Ok(SrvIo { inner: srv, id, sh: sh.clone() }));
+                    } else {
+                        drop(srv);
+                    }
+                    let mut cli = Some(cli);
+                    Endpoint::from_static("http://[::]:50051")
+                        .connect_with_connector(tower::service_fn(move |_: Uri| {
+                            let c = cli.take();
+                            async move {
+                                match c {
+                                    Some(c) => Ok(hyper_util::rt::TokioIo::new(c)),
+                                    None => Err(std::io::Error::other("connection already used")),
+                                }
+                            }
+                        }))
+                        .await
+                };
+                let resolved = sh.lock().unwrap().resolved.is_some();
+                exp.conns.push(ExpConn {
+                    accept: r.is_ok() && !resolved && !(graceful && exp.sig),
+                    acc_at: exp.now,
+                    aged: false,
+                    dropped: false,
+                });
                 channels.push(r.ok());
             }
             Op::Unary(c, s) | Op::Stream(c, _, s) | Op::CStream(c, _, s) | Op::Bidi(c, _, _, s) => {
@@ -877,6 +1312,19 @@ async fn run(sc: Script) -> String {
                     });
                     g.calls.len() - 1
                 };
+                exp.calls.push(ExpCall {
+                    conn: c,
+                    start: channels[c].is_some() && exp.conns[c].accept && !exp.conns[c].dropped && !exp.conn_graceful(c),
+                    kind,
+                    n,
+                    phases: match kind {
+                        Kind::Unary | Kind::CStream => 1,
+                        Kind::SStream | Kind::Bidi => n + 2,
+                    },
+                    permits: 0,
+                    req_left: m,
+                    cancelled: false,
+                });
                 match channels[c].clone() {
                     Some(ch) => {
                         let h = tokio::spawn(client_call(sh.clone(), ch, k, rx));
@@ -890,15 +1338,18 @@ async fn run(sc: Script) -> String {
             }
             Op::ReqMsg(k) => {
                 send_req(&mut req_tx[k], k, sc.payload);
+                exp.calls[k].req_left = exp.calls[k].req_left.saturating_sub(1);
             }
             Op::Adv(k) => {
                 let gate = sh.lock().unwrap().calls[k].gate.clone();
                 gate.add_permits(1);
+                exp.calls[k].permits += 1;
             }
             Op::Sig => {
                 if let Some(tx) = sig_tx.take() {
                     let _ = tx.send(());
                 }
+                exp.sig = true;
             }
             Op::EndIncoming => {
                 inc_tx = None;
@@ -919,16 +1370,26 @@ async fn run(sc: Script) -> String {
                     }
                 }
                 channels[c] = None;
+                exp.conns[c].dropped = true;
             }
             Op::Cancel(k) => {
                 call_tasks[k].1.abort();
                 req_tx[k] = None;
+                exp.calls[k].cancelled = true;
             }
             Op::Wait(secs) => {
                 tokio::time::sleep(Duration::from_secs(secs)).await;
+                exp.wait_passes(secs);
             }
         }
-        after_step(step.yields).await;
+        if tcp {
+            tcp_sync(&sh, &mut exp).await;
+        } else {
+            after_step(step.yields).await;
+        }
+        if std::env::var_os("VERIF_C13_TRACE").is_some() {
+            eprintln!("c13: step {} {:?} done at virtual {:?}", t, step.op, vstart.elapsed());
+        }
         if step.yields.is_none() {
             t += 1;
         }
@@ -940,6 +1401,7 @@ async fn run(sc: Script) -> String {
         while slot.is_some() {
             send_req(slot, k, sc.payload);
         }
+        exp.calls[k].req_left = 0;
     }
     {
         let g = sh.lock().unwrap();
@@ -947,19 +1409,34 @@ async fn run(sc: Script) -> String {
             c.gate.add_permits(1 << 20);
         }
     }
-    settle().await;
+    for c in exp.calls.iter_mut() {
+        c.permits += 1 << 20;
+    }
+    if tcp {
+        tcp_sync(&sh, &mut exp).await;
+    } else {
+        settle().await;
+    }
     // every client goes away
     sh.lock().unwrap().step = nsteps + 1;
     for (_, h) in call_tasks.iter() {
         h.abort();
     }
+    req_tx.clear();
     channels.clear();
-    settle().await;
+    for c in exp.conns.iter_mut() {
+        c.dropped = true;
+    }
+    if tcp {
+        tcp_sync(&sh, &mut exp).await;
+    } else {
+        settle().await;
+    }
     sh.lock().unwrap().step = nsteps + 2;
     serve_task.abort();
     drop(inc_tx);
     drop(sig_tx);
-    drop(keep_tx);
+    drop(_keep_tx);
     settle().await;
 
     let g = sh.lock().unwrap();
@@ -968,8 +1445,9 @@ async fn run(sc: Script) -> String {
     match g.resolved {
         Some((st, open, ok)) if st <= nsteps + 1 => {
             // without a shutdown signal nothing is claimed about connections still open at that
-            // instant (and the count depends on scheduling): not reported
-            let open = if sc_graceful { open.to_string() } else { "*".to_string() };
+            // instant (and the count depends on scheduling): not reported; over TCP the count is
+            // not observable
+            let open = if graceful && !tcp { open.to_string() } else { "*".to_string() };
             out.push(format!("R{}:{}:{}", st, open, if ok { "ok" } else { "err" }))
         }
         _ => out.push("R-:-:-".into()),
@@ -1224,6 +1702,24 @@ fn corpus() -> Vec<String> {
         // several calls on one connection, each in a different phase when the signal fires
         "sc:corpus g b1024 p10 a0 C U0:0 S0:2:0 Q0:2:0 B0:1:1:0 A1 A1 M2 A3 G A0 A1 M2 A2 M3 A3 A1 A3",
         "sc:corpus g b100 p300 a0 C S0:3:5 B0:2:2:0 Q0:1:13 U0:5 A0 A0 A1 M1 G M2 A2 A3 A0 A0 A0 M1 A1 A1 A1",
+        // the TCP entry points (serve_with_shutdown(addr, signal), serve(addr), TcpIncoming)
+        "sc:corpus t b0 p10 a0 C U0:0 G A0",
+        "sc:corpus t b0 p10 a0 C U0:0 A0 G",
+        "sc:corpus t b0 p10 a0 C S0:2:0 A0 G C U1:0 A0 A0 A0",
+        "sc:corpus t b0 p10 a0 C S0:2:5 A0 A0 G A0 A0",
+        "sc:corpus t b0 p10 a0 C C U0:0 U1:0 G A0 A1",
+        "sc:corpus t b0 p10 a0 C G U0:0",
+        "sc:corpus t b0 p10 a0 G C U0:0",
+        "sc:corpus t b0 p10 a0 G",
+        "sc:corpus t b0 p10 a0 C U0:0",
+        "sc:corpus t b0 p70000 a0 C B0:2:1:0 M0 G A0 A0 M0 A0",
+        "sc:corpus t b0 p65536 a0 C Q0:2:0 M0 G M0 A0",
+        "sc:corpus t b0 p10 a0 C U0:0 G W61 A0",
+        "sc:corpus t b0 p10 a1 C U0:0 T C U0:0 U1:0 A0",
+        "sc:corpus t b0 p10 a0 C C U0:0 Q1:2:0 M1 G D0 M1 A1 W61",
+        "sc:corpus t b0 p10 a0 C U0:0 S0:1:0 A1 G X0 A1 A1",
+        "sc:corpus u b0 p10 a0 C U0:0 G A0",
+        "sc:corpus u b0 p10 a0 C S0:1:0 A0 W7200 A0 A0 C U1:5 A1",
         // time passes (task: anything clock-dependent after the signal must get its chance)
         "sc:corpus g b1024 p10 a0 C U0:0 G W61 A0",
         "sc:corpus g b1024 p10 a0 C S0:2:0 A0 G T A0 A0 A0",
@@ -1258,13 +1754,24 @@ fn wait_tok(rng: &mut Rng) -> String {
     format!("W{}", rng.pick(&WAITS))
 }
 
+/// over TCP the virtual clock also ticks (1 ms at a time) while the script waits for the kernel,
+/// so amounts a second short of max_connection_age are left to the duplex variant
+fn tcp_wait_tok(rng: &mut Rng) -> String {
+    loop {
+        let w = *rng.pick(&WAITS);
+        if w != 3599 {
+            return format!("W{}", w);
+        }
+    }
+}
+
 /// "time passes" at up to `max` random places of a scenario (anywhere: before the first
 /// connection, between the phases of calls in flight, after the signal, at the very end)
-fn sprinkle_time(ops: &[String], rng: &mut Rng, max: u64) -> Vec<String> {
+fn sprinkle_time(ops: &[String], rng: &mut Rng, max: u64, tcp: bool) -> Vec<String> {
     let mut v = ops.to_vec();
     for _ in 0..rng.range(1, max) {
         let at = rng.range(0, v.len() as u64) as usize;
-        let t = wait_tok(rng);
+        let t = if tcp { tcp_wait_tok(rng) } else { wait_tok(rng) };
         v = insert_at(&v, at, &[t]);
     }
     v
@@ -1286,13 +1793,14 @@ fn placements(out: &mut Vec<String>, rng: &mut Rng, g: &Gen, mode: &str, trig: &
             ops = insert_at(&ops, pos, &late_probe(g.nconn));
         }
         if timed {
-            ops = sprinkle_time(&ops, rng, 2);
+            ops = sprinkle_time(&ops, rng, 2, mode == "t");
         }
         if races > 0 {
             ops = add_races(&ops, rng, races);
         }
         let tname = if trig.starts_with('W') { "W" } else { trig };
-        let class = format!("place{}{}{}{}", tname, if mode == "n" { "-nosignal" } else { "" }, if races > 0 { "-race" } else { "" }, if timed { "-timed" } else { "" });
+        let class = format!("{}place{}{}{}{}", if mode == "t" { "tcp-" } else { "" }, tname, if mode == "n" { "-nosignal" } else { "" }, if races > 0 { "-race" } else { "" }, if timed { "-timed" } else { "" });
+        let buf = if mode == "t" { 0 } else { buf };
         out.push(format!("{} {}", header(&class, mode, buf, payload, age), ops.join(" ")));
     }
 }
@@ -1343,7 +1851,7 @@ fn phases(out: &mut Vec<String>, rng: &mut Rng, n: usize) {
         let trig = if i % 5 == 4 { "E" } else { "G" };
         let mut ops = insert_at(&g.ops, at, &[trig.to_string()]);
         if rng.chance(1, 3) {
-            ops = sprinkle_time(&ops, rng, 2);
+            ops = sprinkle_time(&ops, rng, 2, false);
         }
         let racy = rng.chance(1, 4);
         if racy {
@@ -1351,6 +1859,61 @@ fn phases(out: &mut Vec<String>, rng: &mut Rng, n: usize) {
         }
         let class = format!("phases{}{}", trig, if racy { "-race" } else { "" });
         out.push(format!("{} {}", header(&class, "g", buf, payload, false), ops.join(" ")));
+    }
+}
+
+/// the TCP entry points: `Router::serve_with_shutdown(addr, signal)` (mode t) and
+/// `Router::serve(addr)` (mode u) over loopback TCP - the signal at every phase boundary of small
+/// scenarios, a late connection, time passing, clients leaving
+fn tcp_scenarios(out: &mut Vec<String>, rng: &mut Rng, n: usize) {
+    for i in 0..n {
+        let finish = rng.chance(3, 4);
+        let g = base_scenario(rng, 2, 3, finish);
+        match i % 6 {
+            0 | 1 | 2 => placements(out, rng, &g, "t", "G", false, true, 0),
+            3 => {
+                // the signal somewhere, time passing at every position
+                let mut g2 = g.clone();
+                let at = rng.range(0, g2.ops.len() as u64) as usize;
+                g2.ops = insert_at(&g2.ops, at, &["G".to_string()]);
+                let w = tcp_wait_tok(rng);
+                let age = rng.chance(1, 3);
+                placements(out, rng, &g2, "t", &w, age, false, 0)
+            }
+            4 => placements(out, rng, &g, "t", "T", true, false, 0),
+            _ => {
+                // clients that leave or cancel, repeated signals, no signal at all
+                for _ in 0..6 {
+                    let mode = if rng.chance(1, 6) { "u" } else { "t" };
+                    let age = rng.chance(1, 4);
+                    let mut ops = g.ops.clone();
+                    for _ in 0..rng.range(1, 4) {
+                        let at = rng.range(0, ops.len() as u64) as usize;
+                        let nc = ops[..at].iter().filter(|t| t.as_str() == "C").count();
+                        let nk = ops[..at].iter().filter(|t| ["U", "S", "Q", "B"].iter().any(|p| t.starts_with(p))).count();
+                        let tok: Option<String> = match rng.below(8) {
+                            0 | 1 | 2 => Some("G".into()),
+                            3 if nc > 0 => Some(format!("D{}", rng.below(nc as u64))),
+                            4 if nk > 0 => Some(format!("X{}", rng.below(nk as u64))),
+                            5 => Some(if rng.chance(1, 3) { "T".into() } else { tcp_wait_tok(rng) }),
+                            6 if nk > 0 => Some(format!("A{}", rng.below(nk as u64))),
+                            7 if nk > 0 => Some(format!("M{}", rng.below(nk as u64))),
+                            _ => None,
+                        };
+                        if let Some(t) = tok {
+                            ops = insert_at(&ops, at, &[t]);
+                        }
+                    }
+                    if rng.chance(1, 3) {
+                        let nc = ops.iter().filter(|t| t.as_str() == "C").count();
+                        ops.extend(late_probe(nc));
+                    }
+                    let (_, payload) = pick_sizes(rng, g.calls.len());
+                    let class = format!("tcp-disturbed{}", if mode == "u" { "-nosignal" } else { "" });
+                    out.push(format!("{} {}", header(&class, mode, 0, payload, age), ops.join(" ")));
+                }
+            }
+        }
     }
 }
 
@@ -1487,12 +2050,35 @@ fn racy_variants(out: &mut Vec<String>, rng: &mut Rng, cases: &[String]) {
     }
 }
 
+/// spread the TCP cases evenly over the list (the runner shards the list in contiguous blocks,
+/// and a TCP case can cost real time when the server under test misbehaves)
+fn interleave(base: Vec<String>, extra: Vec<String>) -> Vec<String> {
+    if extra.is_empty() {
+        return base;
+    }
+    let every = (base.len() / extra.len()).max(1);
+    let mut out = Vec::with_capacity(base.len() + extra.len());
+    let mut it = extra.into_iter();
+    for (i, c) in base.into_iter().enumerate() {
+        if i % every == 0 {
+            if let Some(e) = it.next() {
+                out.push(e);
+            }
+        }
+        out.push(c);
+    }
+    out.extend(it);
+    out
+}
+
 pub fn generate(tier: &str, rng: &mut Rng) -> Vec<String> {
     let thorough = tier == "thorough";
+    let mut tcp = Vec::new();
     let mut out = corpus();
     if thorough {
         structured(&mut out, rng, 10000, 4, 6);
         phases(&mut out, rng, 20000);
+        tcp_scenarios(&mut tcp, rng, 400);
         disturbed(&mut out, rng, 90000, 4, 6);
         exhaustive(&mut out, 6);
         // every scenario up to length 5 again, with every step / random steps non-quiescent
@@ -1502,11 +2088,12 @@ pub fn generate(tier: &str, rng: &mut Rng) -> Vec<String> {
     } else {
         structured(&mut out, rng, 160, 3, 4);
         phases(&mut out, rng, 300);
+        tcp_scenarios(&mut tcp, rng, 24);
         disturbed(&mut out, rng, 800, 3, 4);
         exhaustive(&mut out, 4);
         let mut ex = Vec::new();
         exhaustive(&mut ex, 3);
         racy_variants(&mut out, rng, &ex);
     }
-    out
+    interleave(out, tcp)
 }
